@@ -10,6 +10,7 @@ mod native {
         match fname {
             "SpeedLimitTrainSim::set_save_interval" => { o.set_save_interval(a[0].as_u64().map(|x| x as usize)); Ok(Ok(Value::Null)) }
             "SpeedLimitTrainSim::solve_step" => unit(o.solve_step()),
+            "SpeedLimitTrainSim::solve_required_pwr" => unit(o.solve_required_pwr()),
             "SpeedLimitTrainSim::step" => unit(o.step()),
             "SpeedLimitTrainSim::get_energy_fuel" => Ok(Ok(json!(o.get_energy_fuel(b(&a[0])).get::<si::joule>()))),
             "SpeedLimitTrainSim::get_net_energy_res" => Ok(Ok(json!(o.get_net_energy_res(b(&a[0])).get::<si::joule>()))),
